@@ -42,6 +42,7 @@ pub fn families() -> Vec<&'static dyn Family> {
         &nsim::rrslow::RR_SLOW,
         &nsim::rereg::REREG,
         &nsim::hostile_server::HOSTILE_SERVER,
+        &nsim::chaos::CHAOS,
     ]
 }
 
@@ -90,7 +91,7 @@ pub fn plan(property: &str) -> Option<CheckPlan> {
             ],
             real: R_REAL.to_vec(),
             stubbed: R_STUB.to_vec(),
-            items: vec![PlanItem { family: &rsim::pubsub::PS_CLEAN, quick: 200_000, thorough: 5_000_000 }, PlanItem { family: &rsim::pubsub::PS_FAIL_RANDOM, quick: 60_000, thorough: 1_500_000 }, PlanItem { family: &nsim::multitopic::MULTI_TOPIC, quick: 300, thorough: 10_000 }],
+            items: vec![PlanItem { family: &rsim::pubsub::PS_CLEAN, quick: 200_000, thorough: 5_000_000 }, PlanItem { family: &rsim::pubsub::PS_FAIL_RANDOM, quick: 60_000, thorough: 1_500_000 }, PlanItem { family: &nsim::multitopic::MULTI_TOPIC, quick: 300, thorough: 10_000 }, PlanItem { family: &nsim::chaos::CHAOS, quick: 150, thorough: 6_000 }],
         }),
         "C02" => Some(CheckPlan {
             property: "C02",
@@ -211,7 +212,7 @@ pub fn plan(property: &str) -> Option<CheckPlan> {
             assumptions: vec!["a call whose reply was scripted well inside the timeout must succeed only on a loss-free network; otherwise a timeout is accepted", "the timeout error must come no earlier than the timeout and no later than timeout + 1 s after the call was issued (virtual clock)", "runs with a lost connection are inconclusive"],
             real: N_REAL.to_vec(),
             stubbed: N_STUB.to_vec(),
-            items: vec![PlanItem { family: &nsim::reqrep_e2e::REQREP_E2E, quick: 500, thorough: 30_000 }],
+            items: vec![PlanItem { family: &nsim::reqrep_e2e::REQREP_E2E, quick: 500, thorough: 30_000 }, PlanItem { family: &nsim::chaos::CHAOS, quick: 150, thorough: 6_000 }],
         }),
         "C07" => Some(CheckPlan {
             property: "C07",
@@ -237,7 +238,7 @@ pub fn plan(property: &str) -> Option<CheckPlan> {
                 v.push("server, in the re-registration-observer family and for the impostor outages only: a raw QUIC endpoint with the real TLS configuration that records / refuses registration frames");
                 v
             },
-            items: vec![PlanItem { family: &nsim::reconnect::RECONNECT, quick: 504, thorough: 33_600 }, PlanItem { family: &nsim::rereg::REREG, quick: 200, thorough: 8_000 }],
+            items: vec![PlanItem { family: &nsim::reconnect::RECONNECT, quick: 504, thorough: 33_600 }, PlanItem { family: &nsim::rereg::REREG, quick: 200, thorough: 8_000 }, PlanItem { family: &nsim::chaos::CHAOS, quick: 150, thorough: 6_000 }],
         }),
         "C13" => Some(CheckPlan {
             property: "C13",
